@@ -80,6 +80,13 @@ def thenIsDeleteOld (raw : List Char) : Bool := raw == "DELETE".toList
 /-- `expr.key_command` / `checks.py`: kind strings are upper-cased before they are compared -/
 def kindIs (raw : List Char) (k : String) : Bool := upper raw == k.toList
 
+/-- `transforms.alias_in_join` (as repaired): the ON column is looked up among the select aliases by folded name -/
+def aliasFind (aliases : List Ident) (ref : Ident) : Option Ident := aliases.find? fun a => a.norm == ref.norm
+
+/-- before the repair the lookup compared identifier nodes (folded text *and* quoted flag) -/
+def aliasFindByNode (aliases : List Ident) (ref : Ident) : Option Ident :=
+  aliases.find? fun a => a.norm == ref.norm && a.quoted == ref.quoted
+
 /-- does `hay` contain `needle` as a contiguous substring? -/
 def containsB (needle : List Char) : List Char → Bool
   | [] => needle.isEmpty
